@@ -181,8 +181,8 @@ Definition w_moot : framer QOps :=
 Definition w_prog : prog QOps :=
   {| framers := [dframer QOps; w_moot]; taskables := [0]; tick := tzero QOps; stamp0 := tzero QOps |}.
 Definition w_specs : list spec :=
-  [ {| sp_moot := 1; sp_ren := {| rt := [(1, 2)]; rv := [(7, 8)]; roff := 2000 |}; sp_main := (0, 0) |};
-    {| sp_moot := 1; sp_ren := {| rt := [(1, 3)]; rv := [(7, 9)]; roff := 3000 |}; sp_main := (0, 0) |} ].
+  [ {| sp_moot := 1; sp_ren := {| rt := [(1, 2)]; rv := [(7, 8)]; roff := 2000; rm := [] |}; sp_main := (0, 0) |};
+    {| sp_moot := 1; sp_ren := {| rt := [(1, 3)]; rv := [(7, 9)]; roff := 3000; rm := [] |}; sp_main := (0, 0) |} ].
 
 Example expansion_witness :
   map (fun t => (enacts (getf (expand w_prog w_specs) t 0), enacts (getf (expand w_prog w_specs) t 1),
